@@ -50,7 +50,7 @@ StepOf(e) ==
     [] e.act = "ToXarray"     -> ToXarray(e.h, e.args[1])
     [] e.act = "Derive"       -> Derive(e.h, e.args[1])
     [] e.act = "Chunk"        -> Chunk(e.h)
-    [] e.act = "Copy"         -> Copy(e.h, e.args[1])
+    [] e.act = "Copy"         -> Copy(e.h, e.args[1], e.args[2])
     [] e.act = "Mutate"       -> Mutate(e.h, e.args[1])
     [] e.act = "EditExport"   -> \E x \in exports : x.h = e.h /\ x.fmt = e.args[1] /\ EditExport(x)
     [] e.act = "EditReturned" -> EditReturned(e.h, e.args[1])
